@@ -534,7 +534,10 @@ def eval_state(tam, bpm, prf, parts, q_prev, t_prev, q, t, flags, mode):
     for i, pt in enumerate(parts):
         a = lay['particles'][i]['X'][0]
         if np.isnan(qp0[a]):
-            if mode == 'stored':
+            # a particle that is inside the plume at q was inside at q_prev as well (it cannot re-enter): otherwise
+            # its previous Cartesian position would be a stale exit record and dtp_dt would depend on the history of
+            # the Particle object
+            if mode == 'stored' and not flags[i]:
                 pt.integrate = False
             else:
                 qp0[a:a + 3] = 0.
@@ -631,7 +634,7 @@ def _closure_line(res, p):
             [res['env']['s'][6], math.pi, float(p.g), float(p.alpha_j), float(p.alpha_Fr)]]
     for i, sl in enumerate(lay['particles']):
         X = q[sl['X'][0]:sl['X'][1]]
-        args += [int(res['ps'][i]['integrate']),
+        args += [int(res['ps'][i]['integrate']), int(res['ps'][i]['issoluble']),
                  [real['us'][i], real['nbe'][i], real['rho_p'][i], X[0], X[1], X[2]] + list(real['x_p0'][i]) + list(real['x_p'][i]),
                  q[sl['m'][0]:sl['m'][1]]]
     return req('Lmp.closures', *args)
